@@ -882,6 +882,7 @@ def coverage(done, tier):
         "bitwise_equal_fraction": (tot["elements_bitwise_equal"] / tot["elements_compared"]) if tot["elements_compared"] else None,
         "max_rel_diff_observed": maxrel,
         "simulated_time": "omp_get_wtime is served from the step counter; no code under test reads it",
-        "real_components": ["libmcider/libnumint C sources of the working tree", "OpenBLAS/LAPACK", "libm", "ciderpress Python wrappers", "PySCF (e2e workloads)"],
+        "real_components": ["libmcider/libnumint C sources of the working tree", "OpenBLAS/LAPACK", "libm", "ciderpress Python wrappers", "PySCF (e2e workloads)", "PySCF libcgto evaluation driver (its regions run as simulated teams in the pyscf_* workloads)"],
+        "cases_with_pyscf_regions_simulated": int(tot["cases_run_with_pyscf_regions_simulated"]),
         "stub_components": ["OpenMP runtime (simulated: csrc/simgomp.c)", "malloc/free of the C back end (poisoning wrapper)", "FFTW (absent; naive separable DFT stand-in, validated against numpy.fft by the repository's own tests_fft_plan.py)"],
     }
